@@ -22,10 +22,10 @@ theorem C07_shape (s : List Char) (n : Nat) (hn : 1 ≤ n) (hs : IsAcgt s) :
     ∃ c, setVt s n = .ok c ∧ c.length = n ∧ IsAcgt c ∧
       c.head? = some (nucChar ((valuesOf s).sum % 4)) ∧
       kmerIdx c.tail = (ascentPositions (valuesOf s)).sum % 4 ^ (n - 1) := by
-  refine ⟨_, setVt_ok n hs, ?_, ?_, ?_, ?_⟩
+  refine ⟨_, setVt_ok_vt n hs, ?_, ?_, ?_, ?_⟩
   · rw [List.length_cons, numberToDnaInt_length _ _ (Nat.mod_lt _ (Nat.pow_pos (by omega)))]
     omega
-  · exact isAcgt_cons.2 ⟨nucIdx_nucChar_isSome _, isAcgt_numberToDnaInt _ _⟩
+  · exact isAcgt_cons.2 ⟨nucIdx_nucChar_isSome_vt _, isAcgt_numberToDnaInt _ _⟩
   · rfl
   · rw [List.tail_cons, kmerIdx_numberToDnaInt]
     rfl
@@ -51,7 +51,7 @@ theorem C07_insert (s : List Char) (n p : Nat) (x : Char) (hn : 1 ≤ n) (hs : I
     rcases hx with h | h | h <;> subst h <;> decide
   refine setVt_head_ne n hs (isAcgt_insert hs p hx'.1) ?_
   rw [sum_vals_insert]
-  have := nucIdx_getD_lt x
+  have := nucIdx_getD_lt_vt x
   omega
 
 /-- any single deletion of C, G or T changes the first symbol of the check. -/
@@ -68,7 +68,7 @@ theorem C07_delete (s : List Char) (n p : Nat) (hn : 1 ≤ n) (hs : IsAcgt s) (h
   obtain ⟨y, hy, hy1⟩ := hy
   refine setVt_head_ne n hs (isAcgt_eraseIdx hs p) ?_
   rw [sum_vals_eraseIdx s p y hy]
-  have := nucIdx_getD_lt y
+  have := nucIdx_getD_lt_vt y
   omega
 
 /-- consequently decoding any strand whose check differs from the supplied one raises
